@@ -158,7 +158,9 @@ def run(chk: Check):
                 "TLC (StatsJudge.tla) against the exact rational reference; instances = every series over small "
                 "alphabets (lengths 4..6/7) plus seeded random series of length 4..10000 (i.i.d., ties, AR(1), "
                 "constant, near-constant, equal weights); non-trivial = the exact answer has a non-zero "
-                "error / at least one rejected row; distinct by instance id and presentation")
+                "error / at least one rejected row; distinct by instance id and presentation; driver level: Report.tla "
+                "(design, TLC exhaustive for small constants) replayed into the real driver.afqmc with scripted block "
+                "results - samples_raw.dat, samples.dat, returned mean and error bar = a terminal state of the specification")
     chk.assumptions += [
         "samples and weights are integers (presented to the code as floats, also multiplied by powers of two so that "
         "the float inputs are exact, by 0.1 / 12345.678 / 3 to probe arbitrary weight scales, and with an integer "
@@ -292,6 +294,12 @@ def run(chk: Check):
     for k, part in enumerate(st.batches(recs)):
         verdicts.update(st.judge(chk, part, f"bind{k}", nchunks=64))
     assess(chk, recs, meta, verdicts)
+    # ---- what the DRIVER reports: spec/Report.tla (rank 0's bookkeeping between block results and the reported numbers),
+    # TLC design check, then spec -> code: scripted block results through the real driver.afqmc on thread ranks; the
+    # reported mean / error bar and the rows kept by the 10-MAD rule must be those of the specification
+    from .. import report
+    report.design(chk)
+    report.replay_scripted(chk)
 
 
 # ----------------------------------------------------------------------------- verdicts -> report
